@@ -19,7 +19,7 @@ FILLERS = (
 )
 FILL_Q = (0, 2, 3, 4)
 FILL_T = (0, 1, 2, 3, 4, 5, 6, 7)
-SEG_VARIANTS = ('TR', 'SEC:', 'SEC', 'SECS-:', 'SECS,')
+SEG_VARIANTS = ('TR', 'SEC:', 'SEC', 'SECS-:', 'SECS,', 'SEC3:')
 
 MODES = {
     'default': {},
@@ -44,6 +44,8 @@ def make_seg(i, variant):
         return sec_seg([10 + i], True)
     if v == 'SEC':
         return sec_seg([10 + i], False)
+    if v == 'SEC3:':
+        return sec_seg([110 + i], True)
     if v == 'SECS-:':
         return sec_seg([10 + i, 12 + i], True, thru=True)
     return sec_seg([10 + i, 20 + i], False)
